@@ -531,6 +531,22 @@ theorem spelled_lease_deadline (C : LockContract B Ok keyOk) {s0 : LockSt σ}
   rw [hbe'] at this
   exact ⟨this.1, _, this.2.1⟩
 
+/-- **A callable ttl is resolved on every call, with the arguments of that call.**  For a function decorated with
+`@locked(ttl=f)` where `f` is a callable of the call's arguments: the call with arguments `args` is the `enter` action
+whose ttl is what `f args` denotes - not what `f` returned for an earlier call.  Two calls of the same decorated function
+with different arguments therefore hold leases of their own durations. -/
+theorem callable_ttl_is_resolved_per_call (c : FCall) (f : Nat → Nat → Ttl.Plain) (d : Nat)
+    (hs : c.ttl = some (.callable f)) (hd : Ttl.Denotes (f c.args 0) d) :
+    c.lower = some (.enter c.t c.th c.key (some d) c.wait) :=
+  FCall.lower_callable c f d hs hd
+
+/-- non-vacuity: one decorated function whose ttl is `args` seconds; the call with 1 asks for 8 ticks, the call with 5
+for 40 - reusing the first call's answer would give the second caller a lease of 8 ticks instead of 40 -/
+example :
+    let f : Nat → Nat → Ttl.Plain := fun args _ => .int args
+    (FCall.mk 0 0 1 (some (.callable f)) 1 true).lower = some (.enter 0 0 1 (some 8) true) ∧
+    (FCall.mk 1 0 0 (some (.callable f)) 5 true).lower = some (.enter 1 0 0 (some 40) true) := ⟨rfl, rfl⟩
+
 /-- **`memory_limit` lets the lock commands through**: whatever the window and whatever the size of the
 token, `set_lock`, `unlock`, `is_locked` and the probe reach the backend (the middleware filters `set` and
 `set_many` only).  A user middleware that answered None for `set_lock` would switch locking off
